@@ -312,9 +312,21 @@ func genC20() {
 					if ce, ok := as.Rhs[0].(*ast.CallExpr); ok {
 						if fl, ok := ce.Fun.(*ast.FuncLit); ok {
 							var inner *ast.IfStmt
-							for _, s2 := range fl.Body.List {
+							for k, s2 := range fl.Body.List {
 								if ci, ok := isCopyIf(s2); ok {
 									inner = ci
+								}
+								// n, err := io.Copy(..) as a statement of its own, tested by the next one
+								if as2, ok := s2.(*ast.AssignStmt); ok && len(as2.Rhs) == 1 && k+1 < len(fl.Body.List) {
+									if ce2, ok := as2.Rhs[0].(*ast.CallExpr); ok {
+										if sel2, ok := ce2.Fun.(*ast.SelectorExpr); ok && sel2.Sel.Name == "Copy" {
+											if id2, ok := sel2.X.(*ast.Ident); ok && id2.Name == "io" {
+												if nx, ok := fl.Body.List[k+1].(*ast.IfStmt); ok && nx.Init == nil {
+													inner = nx
+												}
+											}
+										}
+									}
 								}
 							}
 							if inner != nil {
